@@ -333,6 +333,14 @@ func runC11(c *core.Case) *core.Result {
 		// snapshot update that follows must again equal the replay. In half of these cases the
 		// rebuild is held at its read of the operation log while a client's push commits.
 		race := c.Index%3 == 2
+		for _, cl := range w.cls { // everybody is up to date first: the racing push then carries clocks as high as the patch's own
+			if _, sig, msg := w.sync(cl); sig != "" {
+				return verdict(c, "before-patch:", sig, msg)
+			}
+		}
+		if !w.b.Idle(30 * time.Second) {
+			return c.Inconclusive("idle")
+		}
 		pgate := make(chan struct{})
 		preached := make(chan struct{}, 1)
 		var pmu sync.Mutex
@@ -343,7 +351,8 @@ func runC11(c *core.Case) *core.Result {
 				defer pmu.Unlock()
 				if !pgated && cmd.IsData() && cmd.Coll == "-_-Operations" && !isWrite(cmd.Name) {
 					pgated = true
-					return fakemongo.Action{GateBefore: pgate, OnReached: func() { preached <- struct{}{} }}
+					// the read is executed and its reply held: what the rebuild has read is then stale
+					return fakemongo.Action{GateAfter: pgate, OnReached: func() { preached <- struct{}{} }}
 				}
 				return fakemongo.Action{}
 			})
@@ -361,7 +370,9 @@ func runC11(c *core.Case) *core.Result {
 			select {
 			case <-preached:
 				d := dts[r.Intn(len(dts))]
-				w.localOp(d)
+				for j := 0; j < 2+r.Intn(3); j++ {
+					w.localOp(d)
+				}
 				if _, sig, msg := w.sync(d.C); sig != "" {
 					close(pgate)
 					<-pdone
